@@ -10,7 +10,8 @@ RULE = ("case = (framing/transport, keep-alive, read count / AA55 payload length
         "complete answer, tail/complete answer of another request; delays on a T/16 grid). All split points of the frame are "
         "enumerated for several counts and four timings (positive oracle); negative and cross-transmission cases are "
         "enumerated on a grid and sampled by Hypothesis. Non-trivial = a delivery list with a split (two non-empty pieces); "
-        "distinct by the whole case.")
+        "distinct by the whole case. Further dimensions: payload content class (pattern / envelope markers / 0xFF), inconsistent MBAP "
+        "length field on Modbus/TCP, bare protocol vs. inverter object (flag api), a second split request after a split request.")
 ASSUMPTIONS = [
     "positive oracle demands success only when BOTH pieces arrive before transmission time + timeout",
     "a result equal to head + foreign bytes that happens to be a checksum-valid frame (2^-16 coincidence) is counted as "
@@ -105,8 +106,8 @@ def check_case(acc: Acc, case):
         if len(pieces) >= 2:
             split = True
     if split:
-        acc.nontrivial(transport, case["keep"], T, R, count, repr(case["tx"]), CONTENT, case.get("mbap"))
-    c = {"transport": transport, "keep": case["keep"], "T": T, "R": R, "script": script, "latency": case.get("latency", 0)}
+        acc.nontrivial(transport, case["keep"], T, R, count, repr(case["tx"]), CONTENT, case.get("mbap"), case.get("api", False))
+    c = {"transport": transport, "keep": case["keep"], "T": T, "R": R, "script": script, "latency": case.get("latency", 0), "api": case.get("api", False)}
     obs = netcase.run_single(c, command=cmd)
     out = obs.outcome
     fails = []
@@ -322,7 +323,7 @@ def hyp_job(job):
         first = sorted([[draw(st.integers(0, 15)), ["head", s]]] + first, key=lambda e: e[0])
         return {"transport": transport, "keep": draw(st.booleans()), "T": draw(st.sampled_from((0.5, 1.0, 2.0))), "R": R,
                 "count": count, "tx": [first] + draw(st.lists(deliveries, max_size=R)), "latency": draw(st.integers(0, 2)),
-                "content": content, "mbap": mbap}
+                "content": content, "mbap": mbap, "api": draw(st.booleans())}
 
     def body(case):
         if len(acc.samples) < 3:
